@@ -55,11 +55,10 @@ theorem nonDegenerate_iff {cc : Crystal ℝ} (ha : 0 < cc.a) (hb : 0 < cc.b) (hc
   · intro h; exact mul_pos this h
 
 /-- the model's value = stored volume / recomputed volume × reciprocal-metric spacing -/
-theorem dval_eq_recip {cc : Crystal ℝ} (hv : validCell cc) {i j k : Int} (h0 : ¬ (i = 0 ∧ j = 0 ∧ k = 0)) :
+theorem dval_eq_recip {cc : Crystal ℝ} (hg : goodCell cc) {i j k : Int} (h0 : ¬ (i = 0 ∧ j = 0 ∧ k = 0)) :
     dval cc i j k = cc.volume / Spec.volume cc * Spec.dRecip cc i j k := by
-  have hx := Xq_pos hv h0
-  obtain ⟨ha, hb, hc, hD, _⟩ := hv
-  simp only [lit0] at ha hb hc hD
+  have hx := Xq_pos' hg h0
+  obtain ⟨ha, hb, hc, hD⟩ := hg
   unfold dval Spec.dRecip
   simp only [xofInt, xsqrt, lit1]
   rw [quad_recip cc ha.ne' hb.ne' hc.ne' hD.ne', volume_spec ha hb hc]
@@ -67,6 +66,19 @@ theorem dval_eq_recip {cc : Crystal ℝ} (hv : validCell cc) {i j k : Int} (h0 :
   rw [Real.sqrt_div' _ hD.le, Real.sqrt_div' _ hx.le, Real.sqrt_one]
   have hsX : 0 < Real.sqrt (Xq cc i j k) := Real.sqrt_pos.mpr hx
   field_simp
+
+theorem nonDegenerate_good {cc : Crystal ℝ} (h : Spec.nonDegenerate cc) : goodCell cc := by
+  obtain ⟨ha, hb, hc, hD⟩ := h
+  simp only [lit0] at ha hb hc hD
+  exact ⟨ha, hb, hc, (nonDegenerate_iff ha hb hc).mp hD⟩
+
+theorem good_nonDegenerate {cc : Crystal ℝ} (h : goodCell cc) : Spec.nonDegenerate cc := by
+  obtain ⟨ha, hb, hc, hD⟩ := h
+  refine ⟨?_, ?_, ?_, ?_⟩ <;> simp only [lit0]
+  · exact ha
+  · exact hb
+  · exact hc
+  · exact (nonDegenerate_iff ha hb hc).mpr hD
 
 end C13
 end Xrl
